@@ -3,6 +3,7 @@ package main
 import (
 	"fmt"
 	"go/types"
+	"os"
 	"sort"
 	"strings"
 
@@ -20,13 +21,15 @@ type Engine struct {
 	wrap64    map[*ssa.Function]bool
 	stale     []string
 	axioms    []string
+	mapInv    map[string]string
+	accCache  map[string][]accessorImpl
 	keySorts  *Sorts // only for typeKey computations that must be unit independent
 }
 
 func newEngine(l *Loaded) *Engine {
 	e := &Engine{L: l, contracts: map[string]*Contract{}, externs: map[string]*ExternContract{}, funcs: map[string]*ssa.Function{},
 		funcIDs: map[*ssa.Function]int{}, modsets: map[*ssa.Function]ModSet{}, modBusy: map[*ssa.Function]bool{}, wrap64: map[*ssa.Function]bool{},
-		keySorts: newSorts()}
+		keySorts: newSorts(), mapInv: map[string]string{}, accCache: map[string][]accessorImpl{}}
 	for _, sp := range l.SSA {
 		if sp == nil {
 			continue
@@ -172,7 +175,7 @@ func (e *Engine) callMods(c *ssa.CallCommon, fr *frame) ModSet {
 		case *ssa.MakeClosure:
 			ms = e.calleeMods(v.Fn.(*ssa.Function))
 		default:
-			if ec := e.externs["func:"+fr.describe(c.Value, 0)]; ec != nil {
+			if ec := e.externs[funcValueKey(fr, c.Value)]; ec != nil {
 				ms = ec.modSet()
 			}
 		}
@@ -346,6 +349,116 @@ func (e *Engine) allocHeaps(fn *ssa.Function, names ModSet, seen map[*ssa.Functi
 				}
 				if f := c.StaticCallee(); f != nil && isRepoFunc(f) && len(f.Blocks) > 0 {
 					e.allocHeaps(f, names, seen)
+				}
+			}
+		}
+	}
+}
+
+
+type accessorImpl struct {
+	recvT types.Type
+	fn    *ssa.Function
+}
+
+// accessorImpls returns the /repo implementations of an interface method if every one of them is a
+// small accessor (one block, no calls, no stores); otherwise nil.
+func (e *Engine) accessorImpls(m *types.Func) []accessorImpl {
+	key := m.FullName()
+	if r, ok := e.accCache[key]; ok {
+		return r
+	}
+	var res []accessorImpl
+	ok := true
+	var pkgPaths []string
+	for p := range e.L.SSA {
+		pkgPaths = append(pkgPaths, p)
+	}
+	sort.Strings(pkgPaths)
+	sig := m.Type().(*types.Signature)
+	for _, p := range pkgPaths {
+		sp := e.L.SSA[p]
+		if sp == nil {
+			continue
+		}
+		var names []string
+		for n := range sp.Members {
+			names = append(names, n)
+		}
+		sort.Strings(names)
+		for _, n := range names {
+			tm, isT := sp.Members[n].(*ssa.Type)
+			if !isT {
+				continue
+			}
+			if _, isIface := tm.Type().Underlying().(*types.Interface); isIface {
+				continue
+			}
+			for _, t := range []types.Type{tm.Type(), types.NewPointer(tm.Type())} {
+				sel := e.L.Prog.MethodSets.MethodSet(t).Lookup(m.Pkg(), m.Name())
+				if sel == nil {
+					continue
+				}
+				fn := e.L.Prog.MethodValue(sel)
+				if fn == nil {
+					continue
+				}
+				fs := fn.Signature
+				if !types.Identical(types.NewSignatureType(nil, nil, nil, fs.Params(), fs.Results(), fs.Variadic()), types.NewSignatureType(nil, nil, nil, sig.Params(), sig.Results(), sig.Variadic())) {
+					continue
+				}
+				if !smallAccessor(fn) {
+					if os.Getenv("GOVC_ACC") != "" {
+						fmt.Println("not small:", fn, len(fn.Blocks))
+					}
+					ok = false
+				}
+				res = append(res, accessorImpl{recvT: t, fn: fn})
+			}
+		}
+	}
+	if !ok {
+		res = nil
+	}
+	e.accCache[key] = res
+	return res
+}
+
+func smallAccessor(fn *ssa.Function) bool {
+	if len(fn.Blocks) != 1 || len(fn.Blocks[0].Instrs) > 8 {
+		return false
+	}
+	for _, in := range fn.Blocks[0].Instrs {
+		switch x := in.(type) {
+		case *ssa.Store:
+			if a, ok := x.Addr.(*ssa.Alloc); !ok || a.Heap {
+				return false
+			}
+		case ssa.CallInstruction:
+			// wrappers (*T).M calling T.M are fine
+			c := x.Common()
+			if b, ok := c.Value.(*ssa.Builtin); ok && (b.Name() == "ssa:wrapnilchk" || b.Name() == "len") {
+				continue
+			}
+			f := c.StaticCallee()
+			if f == nil || !smallAccessor(f) {
+				return false
+			}
+		case *ssa.MapUpdate, *ssa.Go, *ssa.Defer, *ssa.Panic:
+			return false
+		}
+	}
+	return true
+}
+
+func (e *Engine) debugAccessors(name string) {
+	for _, p := range e.L.Pkgs {
+		if o := p.Types.Scope().Lookup(name); o != nil {
+			if it, ok := o.Type().Underlying().(*types.Interface); ok {
+				for i := 0; i < it.NumMethods(); i++ {
+					m := it.Method(i)
+					r := e.accessorImpls(m)
+					fmt.Println(m.FullName(), len(r))
 				}
 			}
 		}
